@@ -7,6 +7,15 @@
 //!        `time` is cut out of the emitted line, `tid` is `thread_id::get()` of the encoding thread,
 //!        `order` is what `log_mdc::iter` yields on that thread — environment facts handed to the model.
 //!        `indep` is the verdict of an independent parse with `serde_json::from_slice::<Value>`.
+//!
+//! History cases: several encodes on ONE thread with ONE `JsonEncoder`.
+//! case : `seq`  thread-name?  step|step|…   step = level;message;target;module_path?;file?;line?;mdc;writer;display
+//!        mdc = `~` | `k:v,k:v…` (cleared and refilled before the step); writer = `ok` | `a<k>` (fail after k bytes) |
+//!        `m<j>` (j bytes into the message text) | `d<j>` (j bytes into the MDC object) | `e<j>` (j bytes before the end);
+//!        display = `-` | n (the message's `Display` writes n characters and then returns `fmt::Error`)
+//! obs  : `seq:<tid>` + per step ` time;k;order;kind;indep;iso;payload` (kind ok|err|panic; payload `t<chars>` for a
+//!        completed line, `b<hex>` for the bytes of an unfinished encode; `iso` = the line equals, as JSON without
+//!        time/thread_id, what a fresh thread with a fresh encoder emits for the same record and MDC)
 use crate::proto::*;
 use crate::rng::Rng;
 use log::Level;
@@ -199,6 +208,7 @@ pub fn gen(rng: &mut Rng, n: usize, thorough: bool, emit: &mut dyn FnMut(String)
         }
         emit(case_line(level, &msg, &target, mp.as_deref(), file.as_deref(), line, thread.as_deref(), &mdc));
     }
+    gen_seq(rng, n, thorough, emit);
 }
 
 struct Case {
@@ -373,6 +383,9 @@ fn independent(c: &Case, bytes: &[u8], tid: usize) -> String {
 }
 
 pub fn exec(fields: &[&str]) -> String {
+    if fields.first() == Some(&"seq") {
+        return exec_seq(fields);
+    }
     let c = match decode(fields) {
         Some(c) => c,
         None => return "bad-case".to_owned(),
@@ -406,4 +419,457 @@ pub fn exec(fields: &[&str]) -> String {
 /// child-process entry point (unused by this property)
 pub fn child(_args: &[String]) -> i32 {
     2
+}
+
+// ------------------------------------------------------------------------------------------------
+// histories
+// ------------------------------------------------------------------------------------------------
+
+#[derive(Clone)]
+struct StepSpec {
+    level: usize,
+    msg: String,
+    target: String,
+    mp: Option<String>,
+    file: Option<String>,
+    line: Option<u32>,
+    mdc: Vec<(String, String)>,
+    writer: String,
+    display: Option<usize>,
+}
+
+fn step_text(s: &StepSpec) -> String {
+    let entries: Vec<String> = s.mdc.iter().map(|(k, v)| format!("{}:{}", enc_str(k), enc_str(v))).collect();
+    format!(
+        "{};{};{};{};{};{};{};{};{}",
+        s.level,
+        enc_str(&s.msg),
+        enc_str(&s.target),
+        enc_opt(s.mp.as_deref(), enc_str),
+        enc_opt(s.file.as_deref(), enc_str),
+        enc_opt(s.line, |n| n.to_string()),
+        enc_list(",", &entries),
+        s.writer,
+        enc_opt(s.display, |n| n.to_string())
+    )
+}
+
+fn seq_line(thread: Option<&str>, steps: &[StepSpec]) -> String {
+    let st: Vec<String> = steps.iter().map(step_text).collect();
+    format!("seq\t{}\t{}", enc_opt(thread, enc_str), st.join("|"))
+}
+
+fn plain_step(msg: &str) -> StepSpec {
+    StepSpec {
+        level: 3,
+        msg: msg.to_owned(),
+        target: "app::db".to_owned(),
+        mp: Some("app::db".to_owned()),
+        file: Some("src/db.rs".to_owned()),
+        line: Some(17),
+        mdc: vec![("request".to_owned(), "r-1".to_owned())],
+        writer: "ok".to_owned(),
+        display: None,
+    }
+}
+
+fn with_writer(mut s: StepSpec, w: &str) -> StepSpec {
+    s.writer = w.to_owned();
+    s
+}
+
+fn with_display(mut s: StepSpec, n: usize) -> StepSpec {
+    s.display = Some(n);
+    s
+}
+
+fn long_text(rng: &mut Rng, lo: u64, hi: u64) -> String {
+    let len = rng.range(lo, hi) as usize;
+    let words: [&str; 11] = ["lorem", "ipsum", "\"quoted\"", "back\\slash", "new\nline", "tab\t", "é", "漢字", "\u{1f600}", "\u{2028}", "x"];
+    let mut s = String::new();
+    while s.chars().count() < len {
+        s.push_str(*rng.pick(&words[..]));
+        s.push(' ');
+    }
+    s.chars().take(len).collect()
+}
+
+fn rand_step(rng: &mut Rng, thorough: bool) -> StepSpec {
+    let msg = match rng.below(8) {
+        0 => String::new(),
+        1 => "x".to_owned(),
+        2 | 3 => rand_string(rng, thorough, false),
+        4 => long_text(rng, 30, 120),
+        5 => long_text(rng, 256, 700),
+        6 => {
+            if thorough && rng.chance(1, 4) {
+                long_text(rng, 8200, 9500)
+            } else {
+                long_text(rng, 700, 1500)
+            }
+        }
+        _ => (*rng.pick(TRICKY)).to_owned(),
+    };
+    let target = match rng.below(5) {
+        0 => String::new(),
+        1 => long_text(rng, 64, 200),
+        2 => rand_string(rng, thorough, false),
+        _ => (*rng.pick(PLAIN)).to_owned(),
+    };
+    let nm = rng.below(4) as usize;
+    let mdc: Vec<(String, String)> = (0..nm)
+        .map(|_| {
+            (
+                if rng.chance(1, 2) { (*rng.pick(PLAIN)).to_owned() } else { rand_string(rng, thorough, false) },
+                if rng.chance(1, 3) { long_text(rng, 20, 90) } else { rand_string(rng, thorough, false) },
+            )
+        })
+        .collect();
+    StepSpec {
+        level: rng.range(1, 5) as usize,
+        msg,
+        target,
+        mp: if rng.chance(1, 2) { Some(rand_string(rng, thorough, false)) } else { None },
+        file: if rng.chance(1, 2) { Some((*rng.pick(PLAIN)).to_owned()) } else { None },
+        line: if rng.chance(1, 2) { Some(rng.below(100000) as u32) } else { None },
+        mdc,
+        writer: "ok".to_owned(),
+        display: None,
+    }
+}
+
+fn rand_failure(rng: &mut Rng, s: &mut StepSpec) {
+    let mlen = s.msg.len() as u64;
+    match rng.below(9) {
+        0 => s.writer = "a0".to_owned(),
+        1 => s.writer = format!("a{}", rng.range(1, 70)),
+        2 | 3 => s.writer = format!("m{}", rng.range(0, mlen + 2)),
+        4 => s.writer = format!("d{}", rng.range(0, 12)),
+        5 => s.writer = "e1".to_owned(),
+        6 => s.writer = format!("e{}", rng.range(2, 30)),
+        _ => {
+            s.display = Some(rng.range(0, s.msg.chars().count() as u64) as usize);
+            if rng.chance(1, 5) {
+                s.writer = format!("m{}", rng.range(0, mlen + 2));
+            }
+        }
+    }
+}
+
+fn gen_seq(rng: &mut Rng, n: usize, thorough: bool, emit: &mut dyn FnMut(String)) {
+    // ---- deterministic block: every way an encode can stop short, followed at once by a good record ----------
+    let long = long_text(rng, 400, 400);
+    let huge = long_text(rng, 9000, 9000); // beyond any plausible scratch-buffer cap
+    for first in ["first message", "", "q\"\n", long.as_str(), huge.as_str()] {
+        for w in ["a0", "a1", "a40", "m0", "m3", "d0", "d4", "e1", "e2", "e30"] {
+            for named in [None, Some("worker")] {
+                if first.len() > 1000 && named.is_some() {
+                    continue;
+                }
+                emit(seq_line(named, &[with_writer(plain_step(first), w), plain_step("second")]));
+            }
+        }
+        let n_chars = first.chars().count();
+        for cut in [0, 1, n_chars / 2, n_chars] {
+            emit(seq_line(None, &[with_display(plain_step(first), cut), plain_step("second")]));
+        }
+    }
+    // failure first, then two good ones; two failures in a row; failure in the middle; short after long and long after short
+    emit(seq_line(None, &[with_writer(plain_step("one"), "m2"), plain_step("two"), plain_step("three")]));
+    emit(seq_line(None, &[with_writer(plain_step("one"), "m2"), with_writer(plain_step("two"), "d1"), plain_step("three")]));
+    emit(seq_line(None, &[with_writer(plain_step("one"), "e1"), with_display(plain_step("two"), 1), plain_step("three"), plain_step("four")]));
+    emit(seq_line(Some("t"), &[plain_step("one"), with_writer(plain_step(&long), "m100"), plain_step("x"), plain_step(&long)]));
+    emit(seq_line(Some("t"), &[plain_step(&long), with_writer(plain_step("x"), "m1"), plain_step(&long), plain_step("")]));
+    emit(seq_line(None, &[plain_step("a"), plain_step("b"), plain_step("c")]));
+    {
+        // the MDC changes between the steps
+        let mut a = plain_step("with mdc");
+        a.mdc = vec![("k1".into(), "v1".into()), ("k2".into(), "v\n2".into())];
+        let mut b = with_writer(plain_step("cut in mdc"), "d9");
+        b.mdc = vec![("k1".into(), "other".into()), ("k3".into(), "v3".into()), ("k4".into(), "v4".into())];
+        let mut c = plain_step("no mdc");
+        c.mdc = vec![];
+        emit(seq_line(None, &[a.clone(), b.clone(), c.clone(), a]));
+        emit(seq_line(Some("w"), &[b, c]));
+    }
+
+    // ---- random histories ------------------------------------------------------------------------------
+    let count = if thorough { n / 20 } else { n / 10 };
+    for _ in 0..count {
+        let len = rng.range(2, 8) as usize;
+        let mut steps: Vec<StepSpec> = (0..len).map(|_| rand_step(rng, thorough)).collect();
+        // failure pattern: each step fails with probability 1/3; shapes named in the brief are forced regularly
+        for s in steps.iter_mut() {
+            if rng.chance(1, 3) {
+                rand_failure(rng, s);
+            }
+        }
+        match rng.below(6) {
+            0 => {
+                rand_failure(rng, &mut steps[0]); // failure as the first step …
+                steps[1].writer = "ok".to_owned(); // … followed immediately by a successful one
+                steps[1].display = None;
+            }
+            1 => {
+                let i = rng.below(len as u64 - 1) as usize; // two failures in a row
+                rand_failure(rng, &mut steps[i]);
+                rand_failure(rng, &mut steps[i + 1]);
+            }
+            2 => {
+                let i = rng.below(len as u64 - 1) as usize; // failure, then success
+                rand_failure(rng, &mut steps[i]);
+                steps[i + 1].writer = "ok".to_owned();
+                steps[i + 1].display = None;
+            }
+            _ => {}
+        }
+        let thread = if rng.chance(1, 2) { Some(rand_string(rng, false, true)) } else { None };
+        emit(seq_line(thread.as_deref(), &steps));
+    }
+}
+
+fn decode_step(s: &str) -> Option<StepSpec> {
+    let f: Vec<&str> = s.split(';').collect();
+    if f.len() != 9 {
+        return None;
+    }
+    let level: usize = f[0].parse().ok()?;
+    if !(1..=5).contains(&level) {
+        return None;
+    }
+    let mut mdc = vec![];
+    for e in dec_list(',', f[6]) {
+        let kv: Vec<&str> = e.split(':').collect();
+        if kv.len() != 2 {
+            return None;
+        }
+        mdc.push((dec_str(kv[0])?, dec_str(kv[1])?));
+    }
+    let w = f[7];
+    let w_ok = w == "ok"
+        || (w.len() >= 2 && matches!(w.as_bytes()[0], b'a' | b'm' | b'd' | b'e') && w[1..].bytes().all(|b| b.is_ascii_digit()));
+    if !w_ok {
+        return None;
+    }
+    Some(StepSpec {
+        level,
+        msg: dec_str(f[1])?,
+        target: dec_str(f[2])?,
+        mp: dec_opt_str(f[3])?,
+        file: dec_opt_str(f[4])?,
+        line: if f[5] == "-" { None } else { Some(f[5].parse::<u32>().ok()?) },
+        mdc,
+        writer: w.to_owned(),
+        display: if f[8] == "-" { None } else { Some(f[8].parse::<usize>().ok()?) },
+    })
+}
+
+/// accepts the first `limit` bytes, then fails like a full disk
+struct LimitWriter {
+    buf: Vec<u8>,
+    limit: Option<usize>,
+}
+
+impl std::io::Write for LimitWriter {
+    fn write(&mut self, b: &[u8]) -> std::io::Result<usize> {
+        match self.limit {
+            None => {
+                self.buf.extend_from_slice(b);
+                Ok(b.len())
+            }
+            Some(k) => {
+                let room = k.saturating_sub(self.buf.len());
+                if b.len() <= room {
+                    self.buf.extend_from_slice(b);
+                    Ok(b.len())
+                } else if room > 0 {
+                    self.buf.extend_from_slice(&b[..room]);
+                    Ok(room)
+                } else {
+                    Err(std::io::Error::new(std::io::ErrorKind::Other, "no space left on device"))
+                }
+            }
+        }
+    }
+    fn flush(&mut self) -> std::io::Result<()> {
+        Ok(())
+    }
+}
+
+/// a message whose `Display` writes `n` characters and then reports an error
+struct Flaky<'a> {
+    text: &'a str,
+    n: usize,
+}
+
+impl<'a> std::fmt::Display for Flaky<'a> {
+    fn fmt(&self, f: &mut std::fmt::Formatter) -> std::fmt::Result {
+        let cut: String = self.text.chars().take(self.n).collect();
+        f.write_str(&cut)?;
+        Err(std::fmt::Error)
+    }
+}
+
+/// one encode; returns (kind, bytes the writer received)
+fn encode_step(enc: &JsonEncoder, s: &StepSpec, limit: Option<usize>, display: Option<usize>) -> (&'static str, Vec<u8>) {
+    let mut w = LimitWriter { buf: vec![], limit };
+    let level = LEVELS[s.level - 1];
+    let r = {
+        let wref = &mut w;
+        std::panic::catch_unwind(std::panic::AssertUnwindSafe(move || {
+            let mut sw = SimpleWriter(wref);
+            let mut b = log::Record::builder();
+            b.level(level).target(&s.target).module_path(s.mp.as_deref()).file(s.file.as_deref()).line(s.line);
+            match display {
+                None => enc.encode(&mut sw, &b.args(format_args!("{}", s.msg)).build()),
+                Some(n) => enc.encode(&mut sw, &b.args(format_args!("{}", Flaky { text: &s.msg, n })).build()),
+            }
+        }))
+    };
+    let kind = match r {
+        Ok(Ok(())) => "ok",
+        Ok(Err(_)) => "err",
+        Err(_) => "panic",
+    };
+    (kind, w.buf)
+}
+
+fn set_mdc(mdc: &[(String, String)]) -> Vec<String> {
+    log_mdc::clear();
+    for (k, v) in mdc.iter() {
+        log_mdc::insert(k.clone(), v.clone());
+    }
+    let mut order = vec![];
+    log_mdc::iter(|k, _| order.push(k.to_owned()));
+    order
+}
+
+fn spawn_named<T: Send + 'static>(name: &Option<String>, f: impl FnOnce() -> T + Send + 'static) -> T {
+    let b = match name {
+        Some(n) => std::thread::Builder::new().name(n.clone()),
+        None => std::thread::Builder::new(),
+    };
+    b.spawn(f).expect("spawn").join().expect("join")
+}
+
+fn find(hay: &[u8], needle: &[u8]) -> Option<usize> {
+    hay.windows(needle.len()).position(|w| w == needle)
+}
+
+fn resolve_limit(tag: &str, probe: &[u8]) -> Option<usize> {
+    if tag == "ok" {
+        return None;
+    }
+    let j: usize = tag[1..].parse().unwrap_or(0);
+    Some(match tag.as_bytes()[0] {
+        b'a' => j,
+        b'm' => find(probe, b"\"message\":\"").map(|p| p + 11 + j).unwrap_or(j),
+        b'd' => find(probe, b",\"mdc\":{").map(|p| p + 8 + j).unwrap_or(j),
+        _ => probe.len().saturating_sub(j),
+    })
+}
+
+/// the line as JSON with the two environment values removed
+fn canonical(bytes: &[u8]) -> Option<serde_json::Value> {
+    let mut v: serde_json::Value = serde_json::from_slice(bytes).ok()?;
+    let o = v.as_object_mut()?;
+    o.remove("time");
+    o.remove("thread_id");
+    Some(v)
+}
+
+fn time_of(bytes: &[u8]) -> String {
+    match bytes.strip_prefix(b"{\"time\":\"") {
+        Some(rest) => {
+            let end = rest.iter().position(|b| *b == b'"').unwrap_or(rest.len());
+            String::from_utf8_lossy(&rest[..end]).into_owned()
+        }
+        None => String::new(),
+    }
+}
+
+fn exec_seq(fields: &[&str]) -> String {
+    if fields.len() != 3 {
+        return "bad-case".to_owned();
+    }
+    let thread = match dec_opt_str(fields[1]) {
+        Some(t) => t,
+        None => return "bad-case".to_owned(),
+    };
+    if thread.as_deref().map_or(false, |t| t.contains('\u{0}')) {
+        return "bad-case".to_owned();
+    }
+    let steps: Vec<StepSpec> = match fields[2].split('|').map(decode_step).collect::<Option<Vec<_>>>() {
+        Some(s) if !s.is_empty() => s,
+        _ => return "bad-case".to_owned(),
+    };
+    // reference lines: every record alone, on a fresh thread of the same name with a fresh encoder, complete writer,
+    // well-behaved Display. Used to place the byte limits and for the `iso` comparison; never on the history's thread.
+    let mut probes: Vec<Vec<u8>> = vec![];
+    for s in steps.iter() {
+        let s2 = s.clone();
+        probes.push(spawn_named(&thread, move || {
+            set_mdc(&s2.mdc);
+            let (_, bytes) = encode_step(&JsonEncoder::new(), &s2, None, None);
+            log_mdc::clear();
+            bytes
+        }));
+    }
+    let limits: Vec<Option<usize>> = steps.iter().zip(probes.iter()).map(|(s, p)| resolve_limit(&s.writer, p)).collect();
+    // the history itself: one thread, one encoder
+    let steps2 = steps.clone();
+    let limits2 = limits.clone();
+    let (tid, results) = spawn_named(&thread, move || {
+        let enc = JsonEncoder::new();
+        let tid = thread_id::get();
+        let mut out = vec![];
+        for (s, lim) in steps2.iter().zip(limits2.iter()) {
+            let order = set_mdc(&s.mdc);
+            let (kind, bytes) = encode_step(&enc, s, *lim, s.display);
+            out.push((order, kind, bytes));
+        }
+        log_mdc::clear();
+        (tid, out)
+    });
+    let mut obs = format!("seq:{}", tid);
+    for (i, (order, kind, bytes)) in results.iter().enumerate() {
+        let s = &steps[i];
+        let order_s: Vec<String> = order.iter().map(|k| enc_str(k)).collect();
+        let complete = *kind == "ok";
+        let (indep, iso, payload) = if complete {
+            match String::from_utf8(bytes.clone()) {
+                Ok(text) => {
+                    let c = Case {
+                        level: LEVELS[s.level - 1],
+                        msg: s.msg.clone(),
+                        target: s.target.clone(),
+                        mp: s.mp.clone(),
+                        file: s.file.clone(),
+                        line: s.line,
+                        thread: thread.clone(),
+                        mdc: s.mdc.clone(),
+                    };
+                    let iso = match (canonical(bytes), canonical(&probes[i])) {
+                        (Some(a), Some(b)) if a == b => "same",
+                        _ => "diff",
+                    };
+                    (independent(&c, bytes, tid), iso.to_owned(), format!("t{}", enc_str(&text)))
+                }
+                Err(_) => ("FAIL-utf8".to_owned(), "diff".to_owned(), format!("b{}", enc_bytes(bytes))),
+            }
+        } else {
+            ("-".to_owned(), "-".to_owned(), format!("b{}", enc_bytes(bytes)))
+        };
+        obs.push_str(&format!(
+            " {};{};{};{};{};{};{}",
+            enc_str(&time_of(bytes)),
+            enc_opt(limits[i], |k| k.to_string()),
+            enc_list(",", &order_s),
+            kind,
+            indep,
+            iso,
+            payload
+        ));
+    }
+    obs
 }
